@@ -628,6 +628,9 @@ def main():
                     if hasattr(mod, 'generate_all'):
                         mod.generate_all(repo, coqdir)
                         print('generated', f)
+                    elif hasattr(mod, 'generate'):
+                        mod.generate(repo, coqdir)
+                        print('generated', f)
                 except Exception as e:
                     print('FAILED', f, type(e).__name__, e)
     rc = 0
